@@ -23,6 +23,9 @@ def jobs(ctx: Ctx, prop: str) -> List[Dict[str, Any]]:
     for k in range(ctx.pick(10, 60)):      # small graphs: every pair of links, optimum computed by TLC
         items.append({"id": f"small{base + k}", "kind": "routes", "net": "gen", "nodes": 5 + (k % 8), "seed": 31000 + base + k,
                       "all_pairs": True, "n": 0, "snaps": 30, "weight": 2, "first_id": k % 2})      # junctions numbered from 0 or 1
+        if k % 3 == 1:
+            # links without a speed tag, a configured default speed above (80) or below (12) every tagged speed
+            items.append(dict(items[-1], id=f"untagged{base + k}", seed=38000 + base + k, untagged=0.4, default_speed=[80.0, 12.0][(k // 3) % 2]))
         if prop == "C13" and k % 3 == 0:
             # the same kind of graph at a coarser simulation resolution (hexes of about 9 m), with a junction drawn as two
             # nodes 4 m apart: links shorter than one cell.  C13 only: "fastest" has no meaning below the cell size
